@@ -43,6 +43,11 @@ chk("C04", "model_checking", "exhaustive one-command-deep value sweep from base 
     "Trusted: the mocks and the fair-RNG argument (every low-bit pattern recurs). nb runs the full Layer A domain, the async front-ends a stride of it (shared MAC code). Invalid application arguments are outside the alphabet.",
     "DESIGN.md §3 C04")
 
+chk("C10", "exploration", "exhaustive configuration sweep on the real devices against independent regional tables",
+    "Per region and front-end (nb, async, async+Class C) six full sub-products of configurations are installed on a fresh real device through authentic downlinks and set_datarate: every uplink data rate x RX1DROffset 0..7 x first RNG draw (all 64 for 72-channel plans), RXTimingSetupReq 0..15 x board timing x TX end time, all 16 RX2 data-rate values x frequencies, DlChannelReq mappings, joins under join-bias settings, and a data-rate change between TX and the windows. RX1/RX2 RfConfig, the size limit bound to each window, Class C parameters and the requested window times are compared with RP002 tables written independently.",
+    "Trusted: refregion.rs (set-valued where RP002 revisions differ; FSK/LR-FHSS entries only require some region-defined LoRa rate). nb offset sign convention accepted either way.",
+    "DESIGN.md §3 C10")
+
 ALL = ["C%02d" % i for i in range(1, 21)]
 NA_REASON = "check not built yet in this round; see DESIGN.md for the planned bounded exploration"
 
